@@ -44,6 +44,8 @@ structure Vuln where
   dist : String := ""
   repo : String := ""
   range : Option Rng := none
+  issued : String := ""      -- `Issued` as the harness canonicalises it (unix seconds; "" = the zero time)
+  pkgHint : String := ""     -- `Package.RepositoryHint`
 deriving DecidableEq, Repr, Inhabited
 
 def hexDigit (n : Nat) : Char :=
@@ -66,6 +68,6 @@ def renderRange : Option Rng → String
 def Vuln.render (v : Vuln) : String :=
   ",".intercalate [hexStr v.updater, hexStr v.name, hexStr v.desc, hexStr v.links, hexStr v.sev, toString v.nsev,
     (if v.hasPkg then "p" else "nopkg"), hexStr v.pkgName, hexStr v.pkgKind, hexStr v.pkgModule, hexStr v.pkgArch,
-    toString v.archOp, hexStr v.fixed, hexStr v.dist, hexStr v.repo, renderRange v.range]
+    toString v.archOp, hexStr v.fixed, hexStr v.dist, hexStr v.repo, renderRange v.range, hexStr v.issued, hexStr v.pkgHint]
 
 end ClairModel.Feeds
